@@ -1,7 +1,7 @@
 use super::error;
 use super::model::{self, AsValue};
 use std::ops::Range;
-use xml_dom::{self as dom, AsExpandedName, Attr, Document, Element, Node};
+use xml_dom::{self as dom, AsExpandedName, Attr, Document, Node};
 
 pub type XPathFunc =
     dyn Fn(Vec<model::Value>, dom::XmlNode, &mut model::Context) -> error::Result<model::Value>;
@@ -529,18 +529,28 @@ fn lang(
     node: dom::XmlNode,
     _: &mut model::Context,
 ) -> error::Result<model::Value> {
-    let name = String::try_from(args.first().unwrap())?;
+    let name = String::try_from(args.first().unwrap())?.to_ascii_lowercase();
 
+    // The language is that of the nearest xml:lang attribute on the context node or an
+    // ancestor; it matches ignoring case, and ignoring a suffix starting with '-'.
     let mut n = Some(node);
-    while let Some(dom::XmlNode::Element(element)) = n {
-        // FIXME: namespace
-        if let Some(attr) = element.get_attribute_node("lang") {
-            if attr.value()? == name {
-                return Ok(model::Value::Boolean(true));
+    while let Some(current) = n {
+        if let dom::XmlNode::Element(element) = &current {
+            for attr in element.attributes().iter().flat_map(|v| v.iter()) {
+                let xml_lang = attr.name() == "lang"
+                    && matches!(attr.as_expanded_name()?, Some((_, Some(p), _)) if p == "xml");
+                if xml_lang {
+                    let value = attr.value()?.to_ascii_lowercase();
+                    let matched = match value.strip_prefix(name.as_str()) {
+                        Some(rest) => rest.is_empty() || rest.starts_with('-'),
+                        None => false,
+                    };
+                    return Ok(model::Value::Boolean(matched));
+                }
             }
         }
 
-        n = element.parent_node();
+        n = current.parent_node();
     }
 
     Ok(model::Value::Boolean(false))
